@@ -75,6 +75,10 @@ where
                 let _lock = exit.lock();
                 self.write()?;
             }
+            #[cfg(feature = "verif")]
+            if batch_limit_reached {
+                crate::verif::point("eager:batch_boundary");
+            }
             if !batch_limit_reached {
                 break;
             }
